@@ -87,6 +87,10 @@ class InjectedFailure(Exception):
 def _h(*xs):
     return int.from_bytes(_hashlib.blake2b(repr(xs).encode("utf8", "backslashreplace"), digest_size=6).digest(), "big")
 
+def _env_key(params):
+    """identifies one environment of a generated experiment: group tag + shuffle seed of a shuffle(n=k) fan-out"""
+    return f"{params.get('tag')}|{params.get('shuffle_seed')}"
+
 class StatefulLearner:
     """Deterministic learner whose policy depends on everything it has learned (stable hashing, no PYTHONHASHSEED dependence).
        fmt: 'ap' -> (action, prob) ; 'pmf' -> PMF ; 'kw' -> (action, prob, {'h': ...}) ; 'a' -> bare action
@@ -125,7 +129,7 @@ class RecEvaluator:
     def evaluate(self, environment, learner):
         from coba.context import CobaContext
         from coba.safety import SafeLearner, SafeEnvironment
-        etag = SafeEnvironment(environment).params.get("tag")
+        etag = _env_key(SafeEnvironment(environment).params)
         ltag = getattr(learner, "tag", None) or type(learner).__name__
         if self.side: _append(self.side, f"EVAL {etag} {ltag} {self.tag} {os.getpid()}")
         seed = CobaContext.store.get("experiment_seed")
@@ -155,7 +159,7 @@ class LoggingCB:
         return {**self._cb.params, "vf_eval": self.tag}
     def evaluate(self, environment, learner):
         from coba.safety import SafeEnvironment
-        etag = SafeEnvironment(environment).params.get("tag")
+        etag = _env_key(SafeEnvironment(environment).params)
         ltag = getattr(learner, "tag", None) or type(learner).__name__
         if self.side: _append(self.side, f"EVAL {etag} {ltag} {self.tag} {os.getpid()}")
         return self._cb.evaluate(environment, learner)
